@@ -280,6 +280,22 @@ def playback(scratch, harness_name, log_dir, jobs=1, timeout=1800):
     test = m.group(0)
     out["generated"] = True
     out["test"] = test
+    # Kani writes one test per failed check AND per satisfied cover; identical inputs get identical names.
+    # Keep the first definition of each generated test so that the file still compiles.
+    for root, _, files in os.walk(os.path.join(scratch, "src", "verif_kani")):
+        for fn in files:
+            fp = os.path.join(root, fn)
+            txt = open(fp).read()
+            parts = re.split(r"(?m)^(?=/// Test generated for harness )", txt)
+            if len(parts) > 1:
+                seen, keep = set(), [parts[0]]
+                for blk in parts[1:]:
+                    mm = re.search(r"fn (kani_concrete_playback_\w+)", blk)
+                    nm = mm.group(1) if mm else blk
+                    if nm not in seen:
+                        seen.add(nm)
+                        keep.append(blk)
+                open(fp, "w").write("".join(keep))
     cmd2 = ["cargo", "kani", "playback", "-Z", "concrete-playback", "--", test]
     try:
         p2 = subprocess.run(cmd2, cwd=scratch, env=env, capture_output=True, text=True, timeout=timeout)
